@@ -4,6 +4,7 @@ From Coq Require Import List ZArith NArith Bool Arith Lia.
 From Lib Require Import ExprSyntax.
 From Gen Require Import Expr.
 From Model Require Import Expr.
+From Proofs Require Import ExprInd.
 Import ListNotations.
 Local Open Scope nat_scope.
 
@@ -57,12 +58,11 @@ Qed.
 
 (* the SQL tokens of a rendering, as a recursive function of their own *)
 Definition atom_st (a : atom) : list tok := sql_tokens (atom_toks a).
-Definition list_st (l : list atom) : list tok := sql_tokens (join_toks [TComma] (map atom_toks l)).
 Fixpoint rt (d : dialect) (n : node) : list tok :=
   match n with
   | NField c => [TCol c]
   | NAtom a => atom_st a
-  | NList l => TLP :: list_st l ++ [TRP]
+  | NList l => TLP :: join_toks [TComma] (map (rt d) l) ++ [TRP]
   | NSelect k => [TSub k]
   | NSQLOp op a b => sqlop_repr (optoks op) (rt d a) (rt d b)
   | NSQLModulo a b =>
@@ -87,21 +87,31 @@ Proof.
     rewrite sql_tokens_insub_op; reflexivity.
 Qed.
 
+Lemma sql_tokens_join ls :
+  sql_tokens (join_toks [TComma] ls) = join_toks [TComma] (map sql_tokens ls).
+Proof.
+  induction ls as [|x r IH]; [reflexivity|]. destruct r as [|y r'].
+  - reflexivity.
+  - cbn [join_toks map] in *. st_norm. rewrite IH. reflexivity.
+Qed.
+
 Lemma sql_tokens_render d n : sql_tokens (render d n) = rt d n.
 Proof.
-  induction n; cbn [render rt].
+  induction n as [c|a|l IHl|k|op a b IHa IHb _|a b IHa IHb|f a b IHa IHb|p a IHa|neg a s IHa IHs|] using node_ind2;
+    cbn [render rt].
   - reflexivity.
   - reflexivity.
-  - unfold seq_repr, list_st. st_norm. reflexivity.
+  - unfold seq_repr. st_norm. rewrite sql_tokens_join, map_map.
+    rewrite (map_ext_Forall _ _ IHl). reflexivity.
   - reflexivity.
-  - rewrite sql_tokens_sqlop by apply sql_tokens_optoks. rewrite IHn1, IHn2. reflexivity.
+  - rewrite sql_tokens_sqlop by apply sql_tokens_optoks. rewrite IHa, IHb. reflexivity.
   - destruct (is_sqlite d).
-    + rewrite sql_tokens_sqlop by reflexivity. rewrite IHn1, IHn2. reflexivity.
-    + cbn [app]. st_norm. rewrite IHn1, IHn2. reflexivity.
-  - unfold seq_repr. cbn [join_toks app]. st_norm. rewrite IHn1, IHn2.
+    + rewrite sql_tokens_sqlop by reflexivity. rewrite IHa, IHb. reflexivity.
+    + cbn [app]. st_norm. rewrite IHa, IHb. reflexivity.
+  - unfold seq_repr. cbn [join_toks app]. st_norm. rewrite IHa, IHb.
     rewrite <- app_assoc. reflexivity.
-  - rewrite sql_tokens_app, sql_tokens_prefixtoks, IHn. reflexivity.
-  - rewrite sql_tokens_insub, IHn1, IHn2. reflexivity.
+  - rewrite sql_tokens_app, sql_tokens_prefixtoks, IHa. reflexivity.
+  - rewrite sql_tokens_insub, IHa, IHs. reflexivity.
   - reflexivity.
 Qed.
 
@@ -122,54 +132,6 @@ Proof.
   - right; right; right. auto.
 Qed.
 
-Lemma list_st_cons a l :
-  list_st (a :: l) = atom_st a ++ match l with [] => [] | _ :: _ => TComma :: list_st l end.
-Proof.
-  unfold list_st, atom_st. cbn [map join_toks]. destruct l as [|b l'].
-  - cbn [map]. rewrite app_nil_r. reflexivity.
-  - cbn [map]. rewrite !sql_tokens_app. reflexivity.
-Qed.
-
-Lemma neg_neg_lt z : (z <? 0)%Z = true -> (- - z)%Z = z.
-Proof. intros _. apply Z.opp_involutive. Qed.
-
-Lemma items_tl_list l r :
-  match r with TComma :: _ => False | _ => True end ->
-  items_tl (match l with [] => [] | _ :: _ => TComma :: list_st l end ++ r) = (l, r).
-Proof.
-  intros Hr. induction l as [|a l IH].
-  - cbn [app]. destruct r as [|t r']; [reflexivity|]. destruct t; try reflexivity. contradiction.
-  - rewrite list_st_cons. cbn [app].
-    destruct (atom_st_cases a) as [(z & -> & Hz & E)|[(z & -> & Hz & E)|[(s & -> & E)|(-> & E)]]];
-      rewrite E; cbn [app items_tl]; rewrite IH; rewrite ?Z.opp_involutive; reflexivity.
-Qed.
-
-Lemma items_list l r :
-  match r with TRP :: _ => True | _ => False end ->
-  items (list_st l ++ r) = (l, r).
-Proof.
-  intros Hr. destruct l as [|a l].
-  - cbn [list_st]. unfold list_st. cbn. destruct r as [|t r']; [contradiction|]. destruct t; try contradiction. reflexivity.
-  - rewrite list_st_cons. unfold items.
-    assert (Hr' : match r with TComma :: _ => False | _ => True end).
-    { destruct r as [|t r']; [contradiction|]. destruct t; try contradiction. exact I. }
-    destruct (atom_st_cases a) as [(z & -> & Hz & E)|[(z & -> & Hz & E)|[(s & -> & E)|(-> & E)]]];
-      rewrite E; rewrite <- app_assoc; cbn [app item_of]; rewrite (items_tl_list l r Hr');
-      rewrite ?Z.opp_involutive; reflexivity.
-Qed.
-
-Lemma in_tail_list neg lhs l r k :
-  in_tail neg lhs (list_st l ++ TRP :: r) k = k (SIn neg lhs l) r.
-Proof.
-  unfold in_tail.
-  assert (H : items (list_st l ++ TRP :: r) = (l, TRP :: r)) by (apply items_list; exact I).
-  destruct l as [|a l].
-  - unfold list_st. cbn. reflexivity.
-  - rewrite H. rewrite list_st_cons.
-    destruct (atom_st_cases a) as [(z & -> & Hz & E)|[(z & -> & Hz & E)|[(s & -> & E)|(-> & E)]]];
-      rewrite E; cbn [app]; reflexivity.
-Qed.
-
 (* ================================================================ the parser on rendered trees *)
 Definition stops (rest : list tok) : Prop :=
   match rest with [] => True | TRP :: _ => True | TComma :: _ => True | _ => False end.
@@ -180,6 +142,7 @@ Fixpoint need (n : node) : nat :=
   | NSQLOp _ a b | NSQLModulo a b | NSQLCall2 _ a b => need a + need b + 20
   | NSQLPrefix _ a => need a + 6
   | NINSubquery _ a _ => need a + 10
+  | NList l => list_sum (map (fun x => need x + 4) l) + 6
   | _ => 6
   end.
 
@@ -431,15 +394,60 @@ Section Parse.
   Proof. reflexivity. Qed.
   Lemma loop_in f minp lhs r :
     loop pt (S f) minp lhs (TIn :: TLP :: r) =
-    if Nat.leb minp (p_in pt) then in_tail false lhs r (loop pt f minp) else POk (lhs, TIn :: TLP :: r).
+    if Nat.leb minp (p_in pt) then in_tail false lhs r (items pt f) (loop pt f minp)
+    else POk (lhs, TIn :: TLP :: r).
   Proof. reflexivity. Qed.
   Lemma loop_notin f minp lhs r :
     loop pt (S f) minp lhs (TNot :: TIn :: TLP :: r) =
-    if Nat.leb minp (p_in pt) then in_tail true lhs r (loop pt f minp)
+    if Nat.leb minp (p_in pt) then in_tail true lhs r (items pt f) (loop pt f minp)
     else POk (lhs, TNot :: TIn :: TLP :: r).
   Proof. reflexivity. Qed.
-  Lemma in_tail_sub neg lhs k r K : in_tail neg lhs (TSub k :: TRP :: r) K = K (SInSub neg lhs k) r.
+  Lemma in_tail_sub neg lhs k r its K : in_tail neg lhs (TSub k :: TRP :: r) its K = K (SInSub neg lhs k) r.
   Proof. reflexivity. Qed.
+  Lemma in_tail_empty neg lhs r its K : in_tail neg lhs (TRP :: r) its K = K (SIn neg lhs []) r.
+  Proof. reflexivity. Qed.
+  Lemma items_eq f ts :
+    items pt (S f) ts =
+    pbind (parse pt f 0 ts) (fun x =>
+      match snd x with
+      | TComma :: r => pbind (items pt f r) (fun y => POk (fst x :: fst y, snd y))
+      | _ => POk ([fst x], snd x)
+      end).
+  Proof. reflexivity. Qed.
+
+  (* a rendering starts with a token that can start an expression *)
+  Definition is_start (t : tok) : bool :=
+    match t with
+    | TLP | TNot | TNull | TNum _ | TStr _ | TCol _ | TFn _ => true
+    | TOp BSub | TOp BAdd => true
+    | _ => false
+    end.
+  Lemma rt_start n : wf n = true -> exists t r, rt d n = t :: r /\ is_start t = true.
+  Proof.
+    induction n; cbn [wf]; intros W; try discriminate.
+    - eexists _, _; split; reflexivity.
+    - destruct (atom_st_cases a) as [(z & -> & Hz & E)|[(z & -> & Hz & E)|[(s & -> & E)|(-> & E)]]];
+        cbn [rt]; rewrite E; eexists _, _; split; reflexivity.
+    - cbn [rt]. unfold sqlop_repr. eexists _, _; split; reflexivity.
+    - cbn [rt]. destruct (is_sqlite d); unfold sqlop_repr; eexists _, _; split; reflexivity.
+    - cbn [rt]. eexists _, _; split; reflexivity.
+    - destruct p; cbn [rt prefixtoks app]; eexists _, _; split; reflexivity.
+    - apply andb_true_iff in W as [W _]. apply andb_true_iff in W as [W U].
+      destruct (IHn1 W) as (t & r & E & Ht). cbn [rt]. unfold insub_repr.
+      destruct (is_lp_headed (rt d n1)).
+      + eexists _, _; split; reflexivity.
+      + rewrite E. cbn [app]. eexists _, _; split; [reflexivity|exact Ht].
+  Qed.
+
+  (* IN ( item, ... ) with a non-empty list the item reader has read *)
+  Lemma in_tail_items neg lhs ts r its K ds :
+    (exists t r0, ts = t :: r0 /\ is_start t = true) ->
+    its (ts ++ TRP :: r) = POk (ds, TRP :: r) ->
+    in_tail neg lhs (ts ++ TRP :: r) its K = K (SIn neg lhs ds) r.
+  Proof.
+    intros (t & r0 & -> & Ht) Hits. unfold in_tail. cbn [app] in *.
+    destruct t; try discriminate Ht; try (rewrite Hits; reflexivity).
+  Qed.
 End Parse.
 
 Section Main.
@@ -477,11 +485,35 @@ Section Main.
     rewrite (La f (opts ++ tail ++ TRP :: rest) (POk (e, TRP :: rest)) m); [reflexivity|lia|exact HK].
   Qed.
 
+  (* the members of an IN list *)
+  Definition rtl (l : list node) : list tok := join_toks [TComma] (map (rt d) l).
+  Definition needl (l : list node) : nat := list_sum (map (fun x => need x + 4) l).
+  Lemma rtl_cons2 x y l : rtl (x :: y :: l) = rt d x ++ TComma :: rtl (y :: l).
+  Proof. reflexivity. Qed.
+  Lemma rtl_start x l : wf x = true -> exists t r0, rtl (x :: l) = t :: r0 /\ is_start t = true.
+  Proof.
+    intros W. destruct (rt_start d x W) as (t & r & E & Ht). destruct l as [|y l'].
+    - exists t, r. split; [exact E|exact Ht].
+    - rewrite rtl_cons2, E. cbn [app]. eexists _, _; split; [reflexivity|exact Ht].
+  Qed.
+  Lemma items_list l : l <> [] -> Forall Gs l ->
+    forall f rest, needl l <= f -> items pt f (rtl l ++ TRP :: rest) = POk (map denote l, TRP :: rest).
+  Proof.
+    induction l as [|x l IH]; [congruence|]. intros _ F f rest Hf.
+    inversion F as [|? ? Gx Fl]; subst. destruct l as [|y l'].
+    - unfold needl, list_sum in Hf. cbn [map fold_right] in Hf. cbn [rtl map join_toks]. fuel f. rewrite items_eq.
+      rewrite Gx; [|lia|exact I|apply lvl_ok_0]. reflexivity.
+    - rewrite rtl_cons2. rewrite <- app_assoc. cbn [app].
+      unfold needl, list_sum in Hf. cbn [map fold_right] in Hf. fuel f. rewrite items_eq.
+      rewrite Gx; [|lia|exact I|apply lvl_ok_0]. cbn [pbind snd fst].
+      rewrite IH; [reflexivity|discriminate|exact Fl|unfold needl, list_sum; cbn [map fold_right]; lia].
+  Qed.
+
   Theorem rendered_parses n :
     wf n = true -> safe pt d n = true -> Gs n /\ Us n /\ Ls n.
   Proof.
-    induction n as [c|a|l|k|op a IHa b IHb|a IHa b IHb|fn a IHa b IHb|p a IHa|neg a IHa s IHs|];
-      cbn [wf]; intros W S; try discriminate.
+    induction n as [c|a|l IHl|k|op a b IHa IHb IHl|a b IHa IHb|fn a b IHa IHb|p a IHa|neg a s IHa IHs|]
+      using node_ind2; cbn [wf]; intros W S; try discriminate.
     - (* field *)
       apply pack; try reflexivity. intros _ f rest Hf. cbn [need] in Hf.
       fuel f. fuel f. cbn [rt app]. apply unary_col.
@@ -506,13 +538,26 @@ Section Main.
         cbn [pbind fst snd]. fuel g. apply loop_stops. exact I.
       + (* IN list *)
         apply andb_true_iff in W as [Wa Wb]. destruct b as [| |l| | | | | | |]; try discriminate.
-        cbn [safe] in S. destruct (IHa Wa S) as (Ga & Ua & La).
-        apply pack; [cbn [wf]; rewrite Wa; reflexivity|reflexivity|].
+        cbn [safe] in S. apply andb_true_iff in S as [Sa Sl].
+        destruct (IHa Wa Sa) as (Ga & Ua & La).
+        assert (Gl : Forall Gs l).
+        { specialize (IHl l eq_refl). rewrite Forall_forall in *. intros x Hx.
+          rewrite forallb_forall in Wb, Sl. destruct (IHl x Hx (Wb x Hx) (Sl x Hx)) as (G & _). exact G. }
+        assert (Wl : Forall (fun x => wf x = true) l).
+        { rewrite Forall_forall. rewrite forallb_forall in Wb. exact Wb. }
+        apply pack; [cbn [wf]; rewrite Wa, Wb; reflexivity|reflexivity|].
         intros _ f rest Hf. cbn [need] in Hf. cbn [rt denote optoks]. rewrite sqlop_app.
         unfold wrap at 2. cbn [is_lp_headed orb].
-        apply (sqlop_parses a [TIn] (TLP :: list_st l ++ [TRP]) f rest _ La 2); [lia|].
+        apply (sqlop_parses a [TIn] (TLP :: rtl l ++ [TRP]) f rest _ La (needl l + 4)); [unfold needl; lia|].
         intros g Hg. cbn [app]. rewrite <- app_assoc. cbn [app].
-        fuel g. rewrite loop_in, leb0, in_tail_list. fuel g. apply loop_stops. exact I.
+        fuel g. rewrite loop_in, leb0.
+        destruct l as [|x l'].
+        * cbn [rtl map join_toks app]. rewrite in_tail_empty. fuel g. apply loop_stops. exact I.
+        * inversion Wl as [|? ? Wx _]; subst.
+          rewrite (in_tail_items false (denote a) (rtl (x :: l')) (TRP :: rest) (items pt g) (loop pt g 0)
+                     (map denote (x :: l')) (rtl_start x l' Wx)).
+          -- fuel g. apply loop_stops. exact I.
+          -- apply items_list; [discriminate|exact Gl|lia].
       + (* IS NULL *)
         apply andb_true_iff in W as [Wa Wb]. destruct b as [|[]| | | | | | | |]; try discriminate.
         cbn [safe] in S. destruct (IHa Wa S) as (Ga & Ua & La).
@@ -627,21 +672,33 @@ Proof.
     rewrite E; cbn [length]; lia.
 Qed.
 
+Lemma needl_le_length d l :
+  Forall (fun x => need x <= 8 * length (rt d x)) l ->
+  list_sum (map (fun x => need x + 4) l) <= 8 * length (join_toks [TComma] (map (rt d) l)) + 4.
+Proof.
+  induction l as [|x l IH]; intros F; [cbn; lia|].
+  inversion F as [|? ? Hx Fl]; subst. specialize (IH Fl). destruct l as [|y l'].
+  - unfold list_sum. cbn [map fold_right join_toks]. lia.
+  - unfold list_sum in *. cbn [map fold_right] in *. cbn [join_toks].
+    rewrite !app_length. cbn [length]. cbn [map join_toks] in IH. lia.
+Qed.
+
 Lemma need_le_length d n : need n <= 8 * length (rt d n).
 Proof.
-  induction n; cbn [need rt].
+  induction n as [c|a|l IHl|k|op a b IHa IHb _|a b IHa IHb|f a b IHa IHb|p a IHa|neg a s IHa IHs|] using node_ind2;
+    cbn [need rt].
   - cbn [length]. lia.
   - pose proof (atom_st_length a). lia.
-  - cbn [length]. rewrite app_length. cbn [length]. lia.
+  - pose proof (needl_le_length d l IHl). cbn [length]. rewrite app_length. cbn [length]. lia.
   - cbn [length]. lia.
-  - pose proof (sqlop_length (optoks op) (rt d n1) (rt d n2)).
+  - pose proof (sqlop_length (optoks op) (rt d a) (rt d b)).
     assert (1 <= length (optoks op)) by (destruct op; cbn [optoks length]; lia). lia.
   - destruct (is_sqlite d).
-    + pose proof (sqlop_length [TOp BMod] (rt d n1) (rt d n2)). cbn [length] in *. lia.
+    + pose proof (sqlop_length [TOp BMod] (rt d a) (rt d b)). cbn [length] in *. lia.
     + cbn [length]. rewrite !app_length. cbn [length]. rewrite app_length. cbn [length]. lia.
   - cbn [length]. rewrite !app_length. cbn [length]. rewrite app_length. cbn [length]. lia.
   - rewrite app_length. assert (1 <= length (prefixtoks p)) by (destruct p; cbn [prefixtoks length]; lia). lia.
-  - unfold insub_repr. destruct (is_lp_headed (rt d n1)); cbn [length]; rewrite !app_length;
+  - unfold insub_repr. destruct (is_lp_headed (rt d a)); cbn [length]; rewrite !app_length;
       cbn [length]; rewrite ?app_length; cbn [length]; lia.
   - cbn [length]. lia.
 Qed.
@@ -671,13 +728,18 @@ Qed.
 
 Lemma wt_wf n : wt n = true -> wf n = true.
 Proof.
-  unfold wt. induction n; cbn [infer wf]; try reflexivity; try discriminate.
+  unfold wt.
+  induction n as [c|a|l IHl|k|op n1 n2 IHn1 IHn2 IHl|n1 n2 IHn1 IHn2|f n1 n2 IHn1 IHn2|p n IHn|neg n1 n2 IHn1 IHn2|]
+    using node_ind2; cbn [infer wf]; try reflexivity; try discriminate.
   - (* SQLOp *)
     destruct op as [o| | |].
     + destruct (infer n1) as [x|]; [|discriminate]. destruct (infer n2) as [y|]; [|discriminate].
       intros _. rewrite IHn1, IHn2; reflexivity.
-    + destruct (infer n1) as [x|]; [|discriminate]. destruct n2; try discriminate.
-      intros _. rewrite IHn1; reflexivity.
+    + destruct (infer n1) as [x|]; [|discriminate]. destruct n2 as [| |l| | | | | | |]; try discriminate.
+      destruct (existsb _ _) eqn:Ex; [|discriminate]. intros _. rewrite IHn1 by reflexivity. cbn [andb].
+      apply existsb_exists in Ex as (t & _ & Ht). apply andb_true_iff in Ht as [_ Ht].
+      specialize (IHl l eq_refl). rewrite Forall_forall in IHl. rewrite forallb_forall in *.
+      intros c Hc. apply IHl; [exact Hc|]. specialize (Ht c Hc). destruct (infer c); [reflexivity|discriminate].
     + destruct (infer n1) as [x|]; [|discriminate]. destruct (is_none n2); [|discriminate].
       intros _. rewrite IHn1; reflexivity.
     + destruct (infer n1) as [x|]; [|discriminate]. destruct (is_none n2); [|discriminate].
@@ -702,10 +764,13 @@ Proof. destruct n; cbn; try reflexivity. discriminate. Qed.
 
 Lemma no_subquery_safe pt d n : no_subquery n = true -> safe pt d n = true.
 Proof.
-  induction n; cbn [no_subquery safe]; try reflexivity; try discriminate.
+  induction n as [c|a|l IHl|k|op n1 n2 IHn1 IHn2 IHl|n1 n2 IHn1 IHn2|f n1 n2 IHn1 IHn2|p n IHn|neg n1 n2 IHn1 IHn2|]
+    using node_ind2; cbn [no_subquery safe]; try reflexivity; try discriminate.
   - intros H. apply andb_true_iff in H as [H1 H2]. destruct op.
     + rewrite IHn1, IHn2 by assumption. reflexivity.
-    + now apply IHn1.
+    + rewrite IHn1 by assumption. destruct n2 as [| |l| | | | | | |]; try reflexivity. cbn [andb].
+      specialize (IHl l eq_refl). rewrite Forall_forall in IHl. cbn [no_subquery] in H2.
+      rewrite forallb_forall in *. intros c Hc. apply IHl; auto.
     + now apply IHn1.
     + now apply IHn1.
   - intros H. apply andb_true_iff in H as [H1 H2]. rewrite IHn1, IHn2 by assumption. reflexivity.
@@ -717,8 +782,12 @@ Qed.
 (* NOT no tighter than IN: every tree is safe *)
 Lemma table_safe pt d n : Nat.leb (p_not pt) (p_in pt) = true -> safe pt d n = true.
 Proof.
-  intros T. induction n; cbn [safe]; try reflexivity.
-  - destruct op; rewrite ?IHn1, ?IHn2; reflexivity.
+  intros T.
+  induction n as [c|a|l IHl|k|op n1 n2 IHn1 IHn2 IHl|n1 n2 IHn1 IHn2|f n1 n2 IHn1 IHn2|p n IHn|neg n1 n2 IHn1 IHn2|]
+    using node_ind2; cbn [safe]; try reflexivity.
+  - destruct op; rewrite ?IHn1, ?IHn2; try reflexivity.
+    destruct n2 as [| |l| | | | | | |]; try reflexivity. cbn [andb].
+    specialize (IHl l eq_refl). rewrite Forall_forall in IHl. rewrite forallb_forall. exact IHl.
   - rewrite IHn1, IHn2. reflexivity.
   - rewrite IHn1, IHn2. reflexivity.
   - destruct p; rewrite IHn; try reflexivity. rewrite T. destruct (is_insub n && negb (closed_insub d n)); reflexivity.
